@@ -49,6 +49,7 @@ pub fn eval_case(ops: &[Op], drv: Option<&mut Drv>, pool: &Pool) -> CaseResult {
     let shared = Shared::new(Op::max_tag(ops) + 1);
     let mut built = build_case(ops, drv, shared.clone(), pool, false);
     let mut model_v: Vec<(String, String)> = std::mem::take(&mut built.diffs).into_iter().map(|d| ("outcome".to_string(), d)).collect();
+    model_v.extend(std::mem::take(&mut built.qdiffs).into_iter().map(|d| ("query".to_string(), d)));
     let mut impl_v = vec![];
     let b = built.builder.take().unwrap();
     let disp = catch_unwind(AssertUnwindSafe(move || b.build()));
